@@ -442,6 +442,20 @@ def args_for(L, method):
     return [], []
 
 
+MODEL_BUDGET = 150   # extra models per (method, shape) task, spent only on violated obligations
+
+
+def id_atoms(shape):
+    out = []
+    for i in range(NCL):
+        out += [U128('c%d_id' % i), U128('c%d_latest' % i)]
+        if shape[i]:
+            out.append(U128('c%d_snap_vid' % i))
+    for i in range(NVE):
+        out += [U128('v%d_kvid' % i), U128('v%d_parent' % i)]
+    return out
+
+
 METHODS = ['get_client', 'new_client', 'set_snapshot', 'get_snapshot_data', 'get_version_by_parent', 'get_version', 'add_version', 'commit', 'drop']
 
 
@@ -686,6 +700,7 @@ def run_task(task):
         res = it.run_function(f, [Ref(Cell(txn))] + callargs, st)
         out['steps'] = it.steps
         classes = set()
+        budget = [MODEL_BUDGET]
         for (s, rv) in res:
             out['paths'] += 1
             tx = s.root
@@ -715,11 +730,32 @@ def run_task(task):
                 if r == z3.unsat:
                     out['obl'].setdefault(name, 'SUCCESS')
                     continue
-                req = model_to_request(solver.model(), method, shape, cid, argterms, flags)
-                req['obligation'] = name
-                req['path'] = [str(x) for x in s.labels[-6:]]
                 out['obl'][name] = 'FAILURE'
-                out['violations'].append((name, req))
+                # several models per violated obligation, differing in the ALIASING PATTERN of the
+                # ids (which id of the request equals which stored id, which ids two clients share):
+                # whether a violation shows through the public API usually depends on exactly that
+                def record(m):
+                    req = model_to_request(m, method, shape, cid, argterms, flags)
+                    req['obligation'] = name
+                    req['path'] = [str(x) for x in s.labels[-6:]]
+                    out['violations'].append((name, req))
+                record(solver.model())
+                req_atoms = [cid] + [t for t in argterms if t.size() == 128]
+                st_atoms = id_atoms(shape)
+                pairs = [(x, y) for x in req_atoms for y in st_atoms] + list(itertools.combinations(st_atoms, 2))
+                for x, y in pairs:
+                    if budget[0] <= 0:
+                        break
+                    solver.push()
+                    solver.add(x == y)
+                    t1 = time.time()
+                    r2 = solver.check()
+                    out['queries'] += 1
+                    out['solver_s'] += time.time() - t1
+                    if r2 == z3.sat:
+                        record(solver.model())
+                        budget[0] -= 1
+                    solver.pop()
             if len(out['samples']) < 1 and s.labels:
                 out['samples'].append({'engine': 'I', 'method': method, 'snapshot_shape': list(shape), 'path': [str(x) for x in s.labels[-4:]], 'result': res_class(result)})
         out['classes'] = sorted(classes)
@@ -809,7 +845,7 @@ def validate(R, vreplay):
     return n, errs
 
 
-def confirm(R, vreplay, limit=24):
+def confirm(R, vreplay, limit=3000):
     """-> {obligation: (request, script, divergence)} for the violated obligations that reproduce
     as a concrete public-API history on the real backend"""
     by = {}
